@@ -42,6 +42,7 @@ type ReplayFile struct {
 	All       []Violation        `json:"all_violations"`
 	Minimised bool               `json:"minimised"`
 	Extra     map[string]any     `json:"extra,omitempty"`
+	Override  *FaultOverride     `json:"fault_override,omitempty"`
 }
 
 type Stats struct {
@@ -241,6 +242,14 @@ func cmdWorker(args []string) int {
 		if unknown == nil {
 			continue
 		}
+		if ce, ok := eng.(*containerEngine); ok {
+			ce.override = out.override
+		}
+		if me, ok := eng.(*multiEngine); ok {
+			if ce, ok := me.parts[i%len(me.parts)].(*containerEngine); ok {
+				ce.override = out.override
+			}
+		}
 		rf := eng.Minimise(*prop, *tier, i, tape.Snapshot(), *unknown)
 		rf.Seed, rf.Run, rf.SubSeed, rf.Tier = *seed, i, sub, *tier
 		path := filepath.Join(verifDir, "replays", fmt.Sprintf("%s-%d-%d.json", *prop, *seed, i))
@@ -274,7 +283,14 @@ func cmdWorker(args []string) int {
 }
 
 // RunOut is what an engine reports for one case.
+type faultPos struct {
+	reg, n int
+	close  bool
+}
+
 type RunOut struct {
+	positions  []faultPos
+	override   *FaultOverride
 	Violations []Violation
 	Steps      int
 	Switches   int
@@ -335,6 +351,8 @@ func engineFor(prop string) Engine {
 		return &collEngine{}
 	case "C20":
 		return &modEngine{}
+	case "C16":
+		return &webEngine{}
 	case "C06":
 		return &multiEngine{parts: []Engine{&permEngine{}, &graphEngine{}}}
 	}
